@@ -467,6 +467,9 @@ class TermCanvas(Canvas):
 
         self.height = height
 
+        # lines taken back from the scrollback buffer can no longer be scrolled to
+        self.scrolling_up = min(self.scrolling_up, len(self.scrollback_buffer))
+
         self.reset_scroll()
 
         x, y = self.constrain_coords(x, y)
